@@ -67,7 +67,10 @@ pub fn crypto_secretbox_detached(
     nonce: &Nonce,
     key: &Key,
 ) {
-    ciphertext[..message.len()].copy_from_slice(message);
+    // only the message is encrypted and authenticated, however long the
+    // caller's output buffer is
+    let ciphertext = &mut ciphertext[..message.len()];
+    ciphertext.copy_from_slice(message);
     crypto_secretbox_detached_inplace(ciphertext, mac, nonce, key);
 }
 
